@@ -1,9 +1,43 @@
 import RefurbVerif.Wire.Basic
+import RefurbVerif.Wire.Report
+import RefurbVerif.Model.Noqa
+import RefurbVerif.Generated.NoqaLines
 open Lean
 
 namespace RefurbVerif.Wire
 
-/-- driver verbs of this group (filled in by the property that owns it) -/
-def handleNoqa (_verb : String) (_j : Json) : Option Json := none
+/-- text as an array of code points: the answers must stay free of U+0085/U+2028/U+2029, at which the harness
+    (`str.splitlines` in `core.Driver.batch`) would cut an answer line in two -/
+def cpJ (l : Str) : Json := Json.arr (l.map (fun c => (c.toNat : Json))).toArray
+def strsJ (ls : List Str) : Json := Json.arr (ls.map cpJ).toArray
+
+def srcMap (j : Json) : Str → Str := fun f =>
+  match (arr j "files").find? (fun kv => match kv with | .arr #[.str k, _] => k.toList == f | _ => false) with
+  | some (.arr #[_, .str v]) => v.toList
+  | _ => []
+
+/-- driver verbs of C08 -/
+def handleNoqa (verb : String) (j : Json) : Option Json :=
+  match verb with
+  | "splitlines" =>
+    let s := chars j "s"
+    some (Json.mkObj [("py", strsJ (pySplitlines s)), ("phys", strsJ (physLines s)),
+      ("source", strsJ (getSourceLines Generated.noqaLineCfg s)), ("translated", cpJ (translateNewlines false s))])
+  | "rstrip" => some (cpJ (rstrip (chars j "s")))
+  | "noqa" =>
+    let line := chars j "line"
+    some (Json.mkObj [
+      ("ignored", isIgnoredViaComment line (chars j "code")),
+      ("match", match searchNoqa (rstrip line) with
+        | none => Json.null
+        | some none => Json.mkObj [("group", Json.null)]
+        | some (some g) => Json.mkObj [("group", cpJ g)])])
+  | "noqa_report" =>
+    let items := (arr j "items").map toItem
+    let by_ := if str j "by" == "error" then SortBy.error else SortBy.filename
+    some (match runReport Generated.noqaLineCfg by_ (srcMap j) (fun _ => false) items with
+      | none => Json.mkObj [("raised", "IndexError")]
+      | some r => Json.mkObj [("items", Json.arr (r.map itemJ).toArray)])
+  | _ => none
 
 end RefurbVerif.Wire
